@@ -627,6 +627,9 @@ def _logical_table(r, bit64, big=False):
         nw = int(r.integers(1, 40)) if r.random() < 0.8 else int(r.integers(40, 400))
         if big:
             nw = int(r.choice([2999, 3000, 3001, 6000, 7001]))
+        elif r.random() < 0.08:
+            nw = 0          # a zero-length logical record (what a null matrix column is)
+            form = "int" if form == "double" else form
         ksz = 8 if bit64 else 4
         if form == "int":
             lim = 2 ** 62 if bit64 else 2 ** 31 - 1
@@ -702,6 +705,8 @@ def _build_op2(r, blocks, enc):
                     if len(parts) == 2 and parts[1] > 2 * unit and r.random() < 0.5:
                         q = _split(r, parts[1], 2, unit)
                         parts = [parts[0]] + q
+                elif nw == 0:
+                    parts = []          # zero-length logical record: closing keys only
                 else:
                     parts = _split(r, nw, npieces, unit)
                 pieces, p = [], 0
@@ -769,7 +774,9 @@ def _op2_file(sh, blocks, enc, case, r, fname="c11.op2", heavy=False):
     try:
         _op2_checks(sh, o, f, blocks, expect, enc, case, tags, viol, r, heavy)
     except Exception as ex:
-        viol("exception:op2-read", {"exc": repr(ex)[:300]})
+        import traceback
+        viol("exception:op2-read", {"exc": repr(ex)[:300],
+                                    "tb": traceback.format_exc()[-700:]})
     finally:
         try:
             o._fileh.close()
@@ -850,7 +857,7 @@ def _op2_checks(sh, o, f, blocks, expect, enc, case, tags, viol, r, heavy):
             got = [[tuple(h[0]), h[1]] for h in d.headers]
             if got != want:
                 viol("op2-tabheaders", {"got": got[:4], "want": want[:4]})
-        elif pcs and len(pcs[0][0]) >= 3 * ksz:
+        elif pcs and pcs[0] and len(pcs[0][0]) >= 3 * ksz:
             got = [tuple(d.headers[0][0]), d.headers[0][1]] if d.headers else None
             if got != head(pcs[0][0]):
                 viol("op2-tabheaders", {"first_got": got, "first_want": head(pcs[0][0])})
